@@ -27,7 +27,7 @@ RULE = ("track histories over add_notes(content form, value) / add_notes(None, v
         " Also: every single-value fill of a track bar followed by three more items; re-attaching another instrument mid-history; an out-of-range note at every position of every content form (incl. containers edited after they were built); from_chords with a tuning attached; compositions with 'tight' tracks that refuse a quarter. from_chords with every instrument kind and with generic instruments narrowed by set_range (the first out-of-range chord raises the range error and is not placed); objects shared between the tracks of a composition are found by identity. Composition equality follows the contents (equal tracks: equal; one entry different or one track less: unequal). Rests written as empty containers through add_notes and + with every instrument kind; != asked both ways round; trailing empty bars are not counted.")
 ASSUMPTIONS = ["Composition defines no equality: only 'equals itself, differs from different content' is asserted",
                "add_bar of a partially filled bar in the middle of a track is not generated",
-               "from_chords items are at most one bar long (the remainder of a split must fit in the next bar)",
+               "from_chords items may be longer than a bar (they cross several bar lines; repaired in the repository, see KNOWN_FINDINGS.txt)",
                "with an instrument attached, content is given as strings, Notes, lists of those or NoteContainers"]
 
 TOL = 1e-9
@@ -251,7 +251,12 @@ def check_range_forms(ctx, case):
     track = Track(_instr(kind))
     track.add_notes("C-4" if lo <= 48 <= hi else Note().from_int(lo + 1), 4)
     before = mg.track_snapshot(track)
-    if how == "list":
+    if how == "voiced":  # a list whose last name has no octave: the container voices it above the note before it - out of the range
+        top = Note().from_int(hi - 2)
+        arg = ["%s-%d" % (top.name, top.octave), bad.name] if pos % 2 == 0 else [top, bad.name]
+        if not ctx.check(int(NoteContainer(list(arg))[-1]) == hi + 7 or int(NoteContainer(list(arg))[-1]) > hi, "range/harness-voicing", repr(arg)):
+            return
+    elif how == "list":
         arg = notes[:pos] + [bad] + notes[pos:]
     elif how == "setitem":  # a container whose note was replaced afterwards: not sorted any more
         arg = NoteContainer(notes + [Note().from_int(good[-1] + 2)])
@@ -264,7 +269,7 @@ def check_range_forms(ctx, case):
         arg = NoteContainer(notes + [bad])
     ctx.raises("range/out-of-range", (InstrumentRangeError,), track.add_notes, arg, 4)
     ctx.check(mg.track_snapshot(track) == before, "range/refused-changed-track", repr(case))
-    if how != "list":  # '+' takes notes, strings, containers and bars, not lists
+    if how not in ("list", "voiced"):  # '+' takes notes, strings, containers and bars, not lists
         ctx.raises("range/out-of-range", (InstrumentRangeError,), track.__add__, arg)
         ctx.check(mg.track_snapshot(track) == before, "range/refused-changed-track", repr(case))
     ctx.note_case(True, ["range-forms:" + how])
@@ -277,7 +282,7 @@ def _flatten(x, dur, out):
         for c in x:
             _flatten(c, dur * 2, out)
     else:
-        out.append([x, Fr(1, dur)])
+        out.append([x, Fr(1) / Fr(dur)])
 
 
 def _merge(seq):
@@ -575,9 +580,21 @@ def sub_empty_containers(ctx, shard, n):
     ctx.enumerate("history", check_history, cases)
 
 
+def sub_long_names(ctx, shard, n):
+    """single notes written as text with four to six accidentals (more than six characters): inside the range they are accepted,
+    outside refused, with every instrument kind and through both entry points"""
+    cases = []
+    for kind in RANGES:
+        for nm, o in (("Ebbbb", 4), ("C####", 4), ("B#####", 3), ("Abbbbbb", 5), ("Fbbbb", 9), ("C####", 0), ("Gbbbbb", 3)):
+            for how in ("add", "plus"):
+                op = ["add", "str", [[nm, o]], [4, 0, 1, 1]] if how == "add" else ["plus", "str", [[nm, o]]]
+                cases.append({"instr": kind, "ops": [["add", "str", [["A", 4]], [4, 0, 1, 1]], op, ["add", "note", [[nm, o]], [8, 0, 1, 1]]]})
+    ctx.enumerate("history", check_history, cases)
+
+
 def sub_range_forms(ctx, shard, n):
-    cases = [[k, pos, how] for k in ("generic", "piano", "guitar", "midi") for pos in (0, 1, 2) for how in ("list", "setitem", "edited", "nc", "low")]
-    ctx.exhaustive("out-of-range note at every position of every content form", "4 instruments x 3 positions x 5 forms", len(cases))
+    cases = [[k, pos, how] for k in ("generic", "piano", "guitar", "midi") for pos in (0, 1, 2) for how in ("list", "setitem", "edited", "nc", "low", "voiced")]
+    ctx.exhaustive("out-of-range note at every position of every content form", "4 instruments x 3 positions x 6 forms", len(cases))
     ctx.enumerate("range_forms", check_range_forms, cases)
 
 
@@ -608,7 +625,9 @@ def _chordlist_st():
 
 def sub_from_chords(ctx, shard, n):
     combos = [[1, None], [2, None], [4, None], [1, [4, 4]], [2, [3, 4]], [4, [3, 4]], [2, [6, 8]], [1, [5, 4]], [1, [2, 2]],
-              [2, [2, 4]], [4, [2, 4]], [4, [1, 4]], [1, [12, 8]], [2, [2, 2]]]
+              [2, [2, 4]], [4, [2, 4]], [4, [1, 4]], [1, [12, 8]], [2, [2, 2]],
+              # items longer than a bar: they cross several bar lines
+              [1, [3, 8]], [1, [1, 4]], [1, [2, 4]], [2, [1, 4]], [1, [3, 16]], [0.5, [3, 4]], [1, [3, 4]], [2, [1, 8]]]
     instrs = st.sampled_from(["none", "none", "generic", "piano", "guitar", "midi", ["narrow", 48, 64], ["narrow", 48, 72], ["narrow", 16, 43],
                               ["narrow", 50, 96], ["narrow", 48, 67]])
     strat = st.tuples(_chordlist_st(), st.sampled_from(combos), st.sampled_from(T.ALL_KEYS), instrs).map(
@@ -621,6 +640,9 @@ def sub_from_chords(ctx, shard, n):
         {"chords": [None, None, "C"], "duration": 1, "meter": [5, 4]},
         {"chords": ["C", "F", "G", "C"], "duration": 2, "meter": [3, 4], "key": "eb"},
         {"chords": ["Am", None, "E7"], "duration": 1, "meter": [6, 8], "key": "F#"},
+        {"chords": ["C"], "duration": 1, "meter": [3, 8]}, {"chords": ["C", "G"], "duration": 1, "meter": [1, 4]},
+        {"chords": [None, "C"], "duration": 1, "meter": [2, 4]}, {"chords": [["C", "G"], "Am"], "duration": 1, "meter": [3, 8], "key": "Bb"},
+        {"chords": ["C"], "duration": 1, "meter": [3, 16]}, {"chords": ["C", None], "duration": 0.5, "meter": [1, 4]},
     ] + [{"chords": ch, "duration": d, "meter": m, "instr": i}
          for ch in (["C", "Am", "G7"], [None, "C", ["F", "B"]], ["E7#9"], ["C", None, "Db"])
          for d, m in ((1, None), (2, [3, 4])) for i in ("generic", "piano", "guitar", "midi", ["narrow", 48, 64], ["narrow", 16, 43], ["narrow", 48, 72])])
@@ -662,6 +684,7 @@ SUBS = [
     Sub("fills", sub_fills, quick=4, thorough=16),
     Sub("range_forms", sub_range_forms),
     Sub("empty_containers", sub_empty_containers),
+    Sub("long_names", sub_long_names),
     Sub("from_chords", sub_from_chords, quick=1, thorough=4),
     Sub("composition", sub_composition, quick=1, thorough=4),
 ]
